@@ -480,14 +480,36 @@ func c16FailedWrite(c *Ctx) {
 	if proc == nil || writeState == nil {
 		return
 	}
+	// the write as Process sees it: the WriteState call itself, or the call of a helper whose error result is
+	// non-nil whenever the WriteState it performs failed (failureKept)
 	var ws *ssa.Call
-	ssau.Instrs(proc, func(in ssa.Instruction) {
-		if cl, ok := in.(*ssa.Call); ok && cl.Common().StaticCallee() == writeState {
-			ws = cl
-		}
-	})
+	var inner []*ssa.Call // the WriteState calls inside such helpers
+	var find func(f *ssa.Function, depth int) *ssa.Call
+	find = func(f *ssa.Function, depth int) *ssa.Call {
+		var out *ssa.Call
+		ssau.Instrs(f, func(in ssa.Instruction) {
+			cl, ok := in.(*ssa.Call)
+			if !ok || out != nil {
+				return
+			}
+			sc := cl.Common().StaticCallee()
+			if sc == writeState {
+				out = cl
+				return
+			}
+			if sc == nil || sc.Blocks == nil || depth > 2 || prog.PkgOf(sc) != "cmd/mcrew" || sc == proc {
+				return
+			}
+			if w := find(sc, depth+1); w != nil && c16FailureKept(sc, w) {
+				inner = append(inner, w)
+				out = cl
+			}
+		})
+		return out
+	}
+	ws = find(proc, 0)
 	if ws == nil {
-		c.R.Break("C16-R5: Process does not call WriteState")
+		c.R.Break("C16-R5: Process does not call WriteState (directly or through a helper that reports its failure)")
 		return
 	}
 	// functions of the package that hand an emitted message on
@@ -539,14 +561,17 @@ func c16FailedWrite(c *Ctx) {
 			}
 		}
 	}
-	var errv ssa.Value = ws
-	if tup, isTup := ws.Type().(*types.Tuple); isTup {
-		errv = callResults(ws)[tup.Len()-1]
-	}
 	bad := ""
 	nEdges := 0
-	if errv != nil {
+	for i, w := range append([]*ssa.Call{ws}, inner...) {
+		errv := errResultOf(w)
+		if errv == nil {
+			continue
+		}
 		for _, e := range nonNilEdges(errv) {
+			if i == 0 {
+				nEdges++
+			}
 			nEdges++
 			region := flow.ReachableFrom(e, nil)
 			region[e] = true
@@ -590,4 +615,77 @@ func blameCaller(f *ssa.Function, pkgFns []*ssa.Function) *ssa.Function {
 		return f
 	}
 	return rec(f, 0)
+}
+
+// errResultOf: the error a call returns (the call itself, or the last element of its result tuple).
+func errResultOf(cl *ssa.Call) ssa.Value {
+	if tup, isTup := cl.Type().(*types.Tuple); isTup {
+		return callResults(cl)[tup.Len()-1]
+	}
+	return cl
+}
+
+// c16FailureKept: helper f performs the write w; whenever w failed, f's last result is a non-nil error — every
+// return reachable from an error edge of w returns w's error itself or an error made on the spot.
+func c16FailureKept(f *ssa.Function, w *ssa.Call) bool {
+	res := f.Signature.Results()
+	if res.Len() == 0 || !types.Identical(res.At(res.Len()-1).Type(), types.Universe.Lookup("error").Type()) {
+		return false
+	}
+	var errv ssa.Value = errResultOf(w)
+	if w.Parent() != f {
+		// the write is deeper: the call in f that leads to it
+		errv = nil
+		ssau.Instrs(f, func(in ssa.Instruction) {
+			if cl, ok := in.(*ssa.Call); ok && cl.Common().StaticCallee() == w.Parent() {
+				errv = errResultOf(cl)
+			}
+		})
+	}
+	if errv == nil {
+		return false
+	}
+	edges := nonNilEdges(errv)
+	if len(edges) == 0 {
+		// returned as is?
+		for _, b := range f.Blocks {
+			if ret, ok := b.Instrs[len(b.Instrs)-1].(*ssa.Return); ok {
+				if ret.Results[len(ret.Results)-1] != errv {
+					return false
+				}
+			}
+		}
+		return true
+	}
+	for _, e := range edges {
+		region := flow.ReachableFrom(e, nil)
+		region[e] = true
+		for b := range region {
+			ret, ok := b.Instrs[len(b.Instrs)-1].(*ssa.Return)
+			if !ok {
+				continue
+			}
+			rv := ret.Results[len(ret.Results)-1]
+			okRet := false
+			for _, l := range deepDefs(rv, []*ssa.Function{f}) {
+				if l == errv {
+					okRet = true
+					continue
+				}
+				if cl, isCall := l.(*ssa.Call); isCall {
+					switch ssau.CalleeName(cl) {
+					case "fmt.Errorf", "errors.New":
+						okRet = true
+						continue
+					}
+				}
+				okRet = false
+				break
+			}
+			if !okRet {
+				return false
+			}
+		}
+	}
+	return true
 }
